@@ -146,16 +146,113 @@ func vSymbolic() bool { return false }
 // vLocalZone makes time.Local a fixed zone `off` seconds east of UTC.
 func vLocalZone(off int) { time.Local = time.FixedZone("LOC", off) }
 
-// vClockWindow: under the engine time.Now() is base+d seconds with symbolic
-// 0 <= d < span. Native: no effect (real time).
-func vClockWindow(base, span int64) {}
+// The clock. Under the engine time.Now() is a stub (a symbolic instant per
+// epoch, a window, or a fixed instant). When a counterexample is replayed
+// natively, the replay overlay rewrites every `time.Now()` of the gopki
+// sources to `vNow()`, which returns the instants of the solver's model; the
+// state lives in the environment because each package has its own copy of
+// this file.
+type vClk struct {
+	hasW, hasF          int64
+	epoch, wEpoch       int64
+	base, sec, nsec, fx int64
+}
+
+func vClkLoad() vClk {
+	var c vClk
+	f := []*int64{&c.hasW, &c.hasF, &c.epoch, &c.wEpoch, &c.base, &c.sec, &c.nsec, &c.fx}
+	k, cur := 0, ""
+	for _, ch := range os.Getenv("VERIF_CLK") + "," {
+		if ch == ',' {
+			if k < len(f) {
+				*f[k], _ = strconv.ParseInt(cur, 10, 64)
+			}
+			k++
+			cur = ""
+		} else {
+			cur += string(ch)
+		}
+	}
+	return c
+}
+
+func (c vClk) store() {
+	s := ""
+	for _, v := range []int64{c.hasW, c.hasF, c.epoch, c.wEpoch, c.base, c.sec, c.nsec, c.fx} {
+		s += strconv.FormatInt(v, 10) + ","
+	}
+	os.Setenv("VERIF_CLK", s)
+}
+
+// vClockWindow: time.Now() is base+d seconds, 0 <= d < span, with symbolic d
+// and nanoseconds; the same instant until vClockAdvance is called.
+func vClockWindow(base, span int64) {
+	c := vClkLoad()
+	c.hasW, c.base = 1, base
+	if c.epoch == 0 {
+		c.epoch = 1
+	}
+	c.wEpoch = c.epoch
+	d, _ := vGet("now.delta")
+	ns, _ := vGet("now.nsec")
+	c.sec, c.nsec = base+d, ns
+	c.store()
+}
 
 // vClockFixed makes time.Now() return the given concrete Unix time from now
-// on (for harnesses in which time is not the subject). Native: no effect.
-func vClockFixed(sec int64) {}
+// on.
+func vClockFixed(sec int64) {
+	c := vClkLoad()
+	c.hasF, c.fx = 1, sec
+	c.store()
+}
 
 // vClockAdvance lets time pass: later time.Now() calls return a new, not
-// earlier, instant (native: real time passes anyway).
-func vClockAdvance() {}
+// earlier instant.
+func vClockAdvance() {
+	c := vClkLoad()
+	if c.epoch == 0 {
+		c.epoch = 1
+	}
+	c.epoch++
+	c.store()
+}
+
+// vNow is time.Now() of the modelled clock (see above).
+func vNow() time.Time {
+	c := vClkLoad()
+	if c.epoch == 0 {
+		c.epoch = 1
+		c.store()
+	}
+	if c.hasW != 0 {
+		if c.epoch > c.wEpoch {
+			c.wEpoch = c.epoch
+			d, _ := vGet("now" + strconv.FormatInt(c.epoch, 10) + ".delta")
+			ns, _ := vGet("now" + strconv.FormatInt(c.epoch, 10) + ".nsec")
+			c.sec, c.nsec = c.base+d, ns
+			c.store()
+		}
+		return time.Unix(c.sec, c.nsec)
+	}
+	if c.hasF != 0 {
+		return time.Unix(c.fx, 0)
+	}
+	sec, ok := vGet("now" + strconv.FormatInt(c.epoch, 10) + ".sec")
+	if !ok {
+		return time.Now()
+	}
+	ns, _ := vGet("now" + strconv.FormatInt(c.epoch, 10) + ".nsec")
+	return time.Unix(sec, ns)
+}
 
 func vName(prefix string, i int) string { return prefix + strconv.Itoa(i) }
+
+// vSetNum stores v in a numeric field whatever its Go type is, so that a
+// harness still compiles when the width or kind of a configuration field
+// changes (the conversion the field type implies is then part of the run).
+type vNumber interface {
+	~int | ~int8 | ~int16 | ~int32 | ~int64 | ~uint | ~uint8 | ~uint16 | ~uint32 | ~uint64 | ~float32 | ~float64
+}
+
+func vSetNum[T vNumber](dst *T, v int64) { *dst = T(v) }
